@@ -436,15 +436,15 @@ Proof.
   exact Hm.
 Qed.
 
-(* the repaired recogniser refuses strictly more than Range.overlaps with the line: in particular what
-   the scheduler model of C10 (SchedModel.ignored, overlap only) drops is dropped here too *)
+(* the repaired recogniser agrees with the scheduler model of C10 (SchedModel.ignored) on non-empty ranges
+   (SchedModel.touches_line mirrors the insertion clause since round 5) *)
 Theorem has_ignore_extends_overlap : forall src coms r,
   ignored (map fst (ignore_entries src coms)) r = true ->
   (fst r <> snd r) -> has_ignore src coms r = true.
 Proof.
   intros src coms r H Hne. unfold ignored in H. apply existsb_exists in H as (x & Hin & Ho).
   apply in_map_iff in Hin as ([[a b] l] & <- & Hin). unfold has_ignore. apply existsb_exists.
-  exists ((a, b), l). split; [exact Hin|]. unfold touches. cbn [fst snd] in *.
+  exists ((a, b), l). split; [exact Hin|]. unfold touches. unfold touches_line in Ho. cbn [fst snd] in *.
   destruct (fst r =? snd r)%Z eqn:E; [apply Z.eqb_eq in E; contradiction | exact Ho].
 Qed.
 
@@ -452,7 +452,7 @@ Qed.
    overlap alone does not see it, touches does *)
 Theorem insertion_at_line_start :
   let src := [120; 32; 35; 112; 121; 114; 101; 102; 97; 99; 116; 58; 105; 103; 110; 111; 114; 101; 10; 121; 10]%N in
-  ignored (map fst (ignore_entries src None)) (0, 0)%Z = false /\ has_ignore src None (0, 0)%Z = true
+  existsb (overlaps (0, 0)%Z) (map fst (ignore_entries src None)) = false /\ has_ignore src None (0, 0)%Z = true
   /\ has_ignore src None (19, 19)%Z = false.
 Proof. repeat split; vm_compute; reflexivity. Qed.
 
